@@ -41,7 +41,7 @@ def generate(rnd, n):
         op = rnd.choice(["*", "/", "*", "/", "^"])
         l = tree(d - 1)
         if op == "^":
-            return "(%s)%s^%s%d" % (l, rnd.choice(["", " "]), rnd.choice(["", " "]), rnd.choice([0, 1, 2, 3, -1, -2, 2, 3]))
+            return "(%s)%s^%s%d" % (l, rnd.choice(["", " "]), rnd.choice(["", " "]), rnd.choice([0, 1, 2, 3, -1, -2, 2, 3, 5, 6, -6, 10]))
         r = tree(d - 1)
         if rnd.random() < 0.5 or "/" in r or "*" in r:
             r = "(" + r + ")"
@@ -58,7 +58,7 @@ def generate(rnd, n):
             out.append(tree(rnd.randint(2, 3)))
         else:
             s = q(simple=True)
-            k = rnd.choice([2, 3, 4])
+            k = rnd.choice([2, 3, 4, 5, 6, 7, 8, 10, 12])
             out.append("(%s)^%d" % (s, k))
             out.append(" * ".join([s] * k))
             if rnd.random() < 0.3:
